@@ -235,3 +235,33 @@ def escape_aligned_cuts(S: bytes, limit: int = 12):
                 if 0 < i < j < len(S) and (i, j) not in seen:
                     seen.add((i, j))
                     yield (i, j)
+
+
+def feed_variants(make, chunks, observe_one):
+    """The same chunk list fed in ways that must not matter: plain bytes; bytearray objects that the caller wipes right
+    after each call (a reader must not keep a reference to the caller's buffer); with empty chunks in between; and with a
+    twin instance fed a different stream in alternation (no state may be shared between instances).  Observations are
+    taken both when the messages are returned and again at the end (a returned message must not change afterwards).
+    Yields (variant name, observation at return time, observation at the end)."""
+    def run(feeder_name):
+        r = make()
+        twin = make() if feeder_name == "interleaved-twin" else None
+        msgs, early = [], []
+        for i, c in enumerate(chunks):
+            if feeder_name == "bytearray-wiped":
+                buf = bytearray(c)
+                got = r.read(buf)
+                for k in range(len(buf)):
+                    buf[k] = 0x7E if k % 2 else 0x2F
+            else:
+                got = r.read(c)
+            if feeder_name == "empty-chunks" and i % 2 == 0:
+                got = got + r.read(b"")
+            if twin is not None:
+                twin.read(bytes(reversed(c)) + b"\x7e\x7d/\n!")
+            early += [observe_one(m) for m in got]
+            msgs += got
+        return tuple(early), tuple(observe_one(m) for m in msgs)
+    for name in ("plain", "bytearray-wiped", "empty-chunks", "interleaved-twin"):
+        e, f = run(name)
+        yield name, e, f
